@@ -62,6 +62,7 @@ type c05Case struct {
 	Vec    []int  `json:"vector"`
 	Method int    `json:"method_annotation"`
 	SrvErr bool   `json:"server_errors"`
+	Anchor int    `json:"trust_anchor"` // which certificate of the chain the trust store holds: 0 root, 1 middle, 2 leaf
 	// observation
 	Calls    []string `json:"obs_calls"`
 	Result   string   `json:"obs_result"`
@@ -72,7 +73,7 @@ func runC05(a *Args) error {
 	rng := NewRng(a.Seed)
 	prelude := "From NV Require Import Base C05_Model.\nOpen Scope string_scope.\n"
 	w := NewCaseWriter(a, "C05", prelude, "case", "run")
-	w.Rule = "every result vector over {OK,NonRevokable,Unknown,Revoked}^n (n=1..4 exhaustively; thorough adds n=5,6 exhaustively and random n<=12 with out-of-range result values) x action x validator interface x scheme x envelope format, plus validator errors, short vectors and the library-default validator; run through the real verifier.Verify. non-trivial = revocation not skipped and (some certificate not OK, or a validator error); distinct = distinct (vector, action, validators, scheme, format, error) tuples"
+	w.Rule = "every result vector over {OK,NonRevokable,Unknown,Revoked}^n (n=1..4 exhaustively; thorough adds n=5,6 exhaustively and random n<=12 with out-of-range result values) x action x validator interface x scheme x envelope format x position of the trust anchor in the chain (root / middle / leaf held by the listed store), plus validator errors, short vectors and the library-default validator; run through the real verifier.Verify. non-trivial = revocation not skipped and (some certificate not OK, or a validator error); distinct = distinct (vector, action, validators, scheme, format, error) tuples"
 	w.Assumptions = []string{
 		"the revocation validator returns one result per certificate (longer vectors index out of range in revocationFinalResult; outside the validator contract)",
 		"result classes are recognised from the error text of the revocation ValidationResult (\"is revoked\", \"revocation status is unknown\", \"unable to check revocation status\")",
@@ -103,6 +104,12 @@ func runC05(a *Args) error {
 		root := e.chain[len(e.chain)-1].C
 		e.store.Put(truststore.TypeCA, "s", root)
 		e.store.Put(truststore.TypeSigningAuthority, "s", root)
+		// stores holding another certificate of the chain: the trust anchor need not be the root,
+		// and the revocation verdict must not depend on where it sits
+		for k, idx := range []int{len(e.chain) - 1, len(e.chain) / 2, 0} {
+			e.store.Put(truststore.TypeCA, fmt.Sprintf("a%d", k), e.chain[idx].C)
+			e.store.Put(truststore.TypeSigningAuthority, fmt.Sprintf("a%d", k), e.chain[idx].C)
+		}
 		e.subjs = Subjects(e.chain.Certs())
 		// oracle for the library default validator (no OCSP/CRL URLs in these certificates)
 		dv, err := revocation.NewWithOptions(revocation.Options{CertChainPurpose: purpose.CodeSigning})
@@ -148,7 +155,7 @@ func runC05(a *Args) error {
 			storeType = "signingAuthority"
 			scheme = signature.SigningSchemeX509SigningAuthority
 		}
-		doc := OCIPolicy(c.Level, override, []string{storeType + ":s"}, []string{"*"}, "")
+		doc := OCIPolicy(c.Level, override, []string{fmt.Sprintf("%s:a%d", storeType, c.Anchor)}, []string{"*"}, "")
 		var results []*revresult.CertRevocationResult
 		for i, k := range c.Vec {
 			r := &revresult.CertRevocationResult{Result: c05Result(k), RevocationMethod: revresult.RevocationMethod(c.Method)}
@@ -222,9 +229,10 @@ func runC05(a *Args) error {
 		obs := CApp("mk_obs", CList(callTerms), resTerm, CBool(c.Rejected))
 		term := CApp("mk_case", CN(my), in, obs)
 		nontriv := c.Action != "Skip" && (c.VErr || hasNonOK(c.Vec))
-		key := fmt.Sprintf("%v|%v|%v|%v|%v|%v|%v", c.Vec, c.Action, c.Val, c.SA, c.Format, c.VErr, c.Level)
+		key := fmt.Sprintf("%v|%v|%v|%v|%v|%v|%v|%v", c.Vec, c.Action, c.Val, c.SA, c.Format, c.VErr, c.Level, c.Anchor)
 		w.Add(my, term, c, key, nontriv)
 		w.Count("chain_len", fmt.Sprint(c.N))
+		w.Count("trust_anchor", []string{"root", "middle", "leaf"}[c.Anchor])
 		w.Count("action", c.Action)
 		w.Count("validators", fmt.Sprint(c.Val))
 		w.Count("obs_result", strings.SplitN(c.Result, ":", 2)[0])
@@ -260,11 +268,11 @@ func runC05(a *Args) error {
 				if a.Tier == "thorough" && n <= 4 {
 					for val := 1; val <= 3; val++ {
 						for _, sa := range []bool{false, true} {
-							runCase(&c05Case{N: n, Format: Pick(rng, formats), SA: sa, Action: act, Level: Pick(rng, levels), Val: val, Vec: v, Method: rng.Intn(4), SrvErr: rng.Chance(1, 3)})
+							runCase(&c05Case{N: n, Format: Pick(rng, formats), SA: sa, Action: act, Level: Pick(rng, levels), Val: val, Vec: v, Method: rng.Intn(4), SrvErr: rng.Chance(1, 3), Anchor: rng.Intn(3)})
 						}
 					}
 				} else {
-					runCase(&c05Case{N: n, Format: Pick(rng, formats), SA: rng.Bool(), Action: act, Level: Pick(rng, levels), Val: 1 + rng.Intn(3), Vec: v, Method: rng.Intn(4), SrvErr: rng.Chance(1, 3)})
+					runCase(&c05Case{N: n, Format: Pick(rng, formats), SA: rng.Bool(), Action: act, Level: Pick(rng, levels), Val: 1 + rng.Intn(3), Vec: v, Method: rng.Intn(4), SrvErr: rng.Chance(1, 3), Anchor: rng.Intn(3)})
 				}
 			}
 		})
@@ -297,7 +305,7 @@ func runC05(a *Args) error {
 				v[i] = 2 + rng.Intn(3)
 			}
 		}
-		runCase(&c05Case{N: n, Format: Pick(rng, formats), SA: rng.Bool(), Action: Pick(rng, actions), Level: Pick(rng, levels), Val: 1 + rng.Intn(3), Vec: v, Method: rng.Intn(4), SrvErr: rng.Bool()})
+		runCase(&c05Case{N: n, Format: Pick(rng, formats), SA: rng.Bool(), Action: Pick(rng, actions), Level: Pick(rng, levels), Val: 1 + rng.Intn(3), Vec: v, Method: rng.Intn(4), SrvErr: rng.Bool(), Anchor: rng.Intn(3)})
 	}
 	// 4. library default validator (no validator supplied): answer taken from the oracle
 	for n := 1; n <= 4; n++ {
@@ -310,6 +318,18 @@ func runC05(a *Args) error {
 				runCase(&c05Case{N: n, Format: Pick(rng, formats), SA: sa, Action: act, Level: Pick(rng, levels), Val: 0, Vec: e.defRes})
 			}
 		}
+	}
+	// 5. trust anchor below the root: every vector for n=2,3 (4 sampled in quick, all in thorough) with the store
+	// holding the middle certificate or the leaf — results reported above the anchor count like any other
+	for n := 2; n <= 4; n++ {
+		vectors(n, 4, func(v []int) {
+			if n == 4 && a.Tier != "thorough" && !rng.Chance(1, 4) {
+				return
+			}
+			for anchor := 1; anchor <= 2; anchor++ {
+				runCase(&c05Case{N: n, Format: Pick(rng, formats), SA: rng.Bool(), Action: Pick(rng, []string{"Enforce", "Log"}), Level: Pick(rng, levels), Val: 1 + rng.Intn(3), Vec: v, Method: rng.Intn(4), Anchor: anchor})
+			}
+		})
 	}
 	return w.Close()
 }
